@@ -6,25 +6,41 @@ said so next to the code.
 """
 import collections
 
+def strict_eq(a, b):
+    """Equality that does not confuse True with 1, 0 with False, "" with None, or a list with a tuple
+    (dict subclasses compare as dicts: an OrderedDict result is a dict)."""
+    if isinstance(a, dict) and isinstance(b, dict):
+        return set(a) == set(b) and all(strict_eq(a[k], b[k]) for k in a)
+    if isinstance(a, list) and isinstance(b, list):
+        return len(a) == len(b) and all(strict_eq(x, y) for x, y in zip(a, b))
+    return type(a) is type(b) and a == b
+
+
 SUBST = ("C 1", "C_1")       # the one header that contains a space and needs header_substitute
 
 
 # ---- fixed-width tables ---------------------------------------------------------------------------
 
 def fixed_render(case):
-    """case: headers, gaps (len n-1), rows (list of cell lists), indent, rstrip, junk, footer."""
+    """case: headers, gaps (len n-1), rows (list of cell lists), indent, rstrip, tab, junk, footer.
+    tab: the last padding character of every padded column is a TAB (same width, so positions are unchanged)."""
     hs = case["headers"]
     n = len(hs)
     widths = [len(hs[i]) + case["gaps"][i] for i in range(n - 1)]
     ind = " " * case.get("indent", 0)
+    tab = case.get("tab")
+
+    def pad(c, w):
+        t = c.ljust(w)
+        return t[:-1] + "\t" if (tab and len(c) < w) else t
 
     def line(cells):
-        s = ind + "".join(c.ljust(w) for c, w in zip(cells[:-1], widths)) + cells[-1]
+        s = ind + "".join(pad(c, w) for c, w in zip(cells[:-1], widths)) + cells[-1]
         return s.rstrip() if case.get("rstrip") else s
     lines = []
     if case.get("junk") is not None:
         lines.append(case["junk"])
-    lines.append(ind + "".join(h.ljust(w) for h, w in zip(hs[:-1], widths)) + hs[-1])
+    lines.append(ind + "".join(pad(h, w) for h, w in zip(hs[:-1], widths)) + hs[-1])
     for r in case["rows"]:
         lines.append(line(r))
     if case.get("footer") is not None:
@@ -58,7 +74,8 @@ def keys_of(case):
 
 def fixed_expected(case):
     """The rendered cells, keys in header order.  A row whose cells are all empty renders as a
-    blank line; blank lines never contribute data, so it is not expected back."""
+    blank line and the statement itself says "blank lines never contribute data": it is not
+    expected back (decided by the statement, and documented by the helper)."""
     ks = keys_of(case)
     return [dict(zip(ks, r)) for r in case["rows"] if any(c != "" for c in r)]
 
@@ -150,8 +167,9 @@ def active_ref(lines, comment_char):
 
 def kv_ref(case):
     """First separator splits, later duplicate wins, comments and blanks contribute nothing.
-    Returns (dict, acceptable key orders).  With `ordered` the statement says "in order" but not
-    where a re-assigned key goes, so both the first and the last position are accepted."""
+    Returns (dict, key order).  With `ordered` the pairs come back "in order" and a later duplicate
+    "overrides" the earlier one, i.e. takes its place: the key keeps its first position (this is
+    also what the documented OrderedDict return type does)."""
     cc = case["comment_char"]
     so = case["split_on"]
     lines = case["lines"]
@@ -159,6 +177,8 @@ def kv_ref(case):
         lines = active_ref(lines, cc)
     pairs = []
     for l in lines:
+        if not l.strip():
+            continue                     # a blank line never contributes data (also when comment_char is None)
         if case["filter_string"] is not None and case["filter_string"] not in l:
             continue
         p = l.find(so)
@@ -167,15 +187,12 @@ def kv_ref(case):
         elif case["use_partition"]:
             pairs.append((l.strip(), ""))
     d = {}
-    first, last = [], []
+    first = []
     for k, v in pairs:
         if k not in d:
             first.append(k)
         d[k] = v
-    for k, v in reversed(pairs):
-        if k not in last:
-            last.insert(0, k)
-    return d, [first, last]
+    return d, first
 
 
 def unsplit_render(case):
